@@ -137,11 +137,23 @@ ScanIdx(l, x, i) ==
   ELSE <<[rec |-> l[x[i].pos], ent |-> x[i]]>> \o ScanIdx(l, x, i + 1)
 RecsOf(sc) == [i \in 1..Len(sc) |-> sc[i].rec]
 
-\* the index the repaired setupIndex leaves for a log file: if the last entry
-\* does not end at the end of the file the index is rebuilt from the log
-Reindexed(l, x) ==
-  IF "tail" \in Fix /\ ((x = <<>> /\ l # <<>>) \/ (x # <<>> /\ Last(x).pos # Len(l)))
-  THEN EntsOf(l, 0) ELSE x
+\* A torn write: the process died inside the write call of a message set, the
+\* log file ends with a partial record (its bytes occupy file space, it cannot
+\* be decoded).  Only the tail of a log file can be torn.
+Torn == [off |-> -8, ep |-> -8, val |-> -8, key |-> "torn"]
+IsTorn(r) == r.key = "torn"
+RECURSIVE Whole(_)                      \* the records in front of the first partial one
+Whole(l) == IF l = <<>> \/ IsTorn(Head(l)) THEN <<>> ELSE <<Head(l)>> \o Whole(Tail(l))
+
+\* the repaired setupIndex: if the last index entry does not end at the end of
+\* the log file (unindexed or torn tail, index of another file) the index is
+\* rebuilt from the complete records of the log (the old index file is removed,
+\* not overwritten) and whatever follows the last complete record is cut off
+\* the log file
+NeedsRebuild(l, x) ==
+  "tail" \in Fix /\ ((x = <<>> /\ l # <<>>) \/ (x # <<>> /\ Last(x).pos # Len(l)))
+Reindexed(l, x) == IF NeedsRebuild(l, x) THEN EntsOf(Whole(l), 0) ELSE x
+Relogged(l, x) == IF NeedsRebuild(l, x) THEN Whole(l) ELSE l
 
 -----------------------------------------------------------------------------
 (* reads (reader.go, uncommitted reader): byte-sequential through the log   *)
@@ -414,7 +426,8 @@ Apply(S) ==
     [] h.i = "mvlog" -> [T EXCEPT !.fs.lf = Put(Del(@, h.k), h.t, f.lf[h.k])]
     [] h.i = "mvidx" -> [T EXCEPT !.fs.xf = Put(Del(@, h.k), h.t, f.xf[h.k])]
     \* setupIndex at the end of Replace (only the repaired code changes the file)
-    [] h.i = "reidx" -> [T EXCEPT !.fs.xf = Put(@, h.k, Reindexed(f.lf[h.k], f.xf[h.k]))]
+    [] h.i = "reidx" -> [T EXCEPT !.fs.xf = Put(@, h.k, Reindexed(f.lf[h.k], f.xf[h.k])),
+                                  !.fs.lf = Put(@, h.k, Relogged(f.lf[h.k], f.xf[h.k]))]
     [] h.i = "whw" -> [T EXCEPT !.fs.hwf = S.mem.hw]
     [] h.i = "wep" -> [T EXCEPT !.fs.epf = S.mem.ep]
     [] h.i = "msegs" -> [T EXCEPT !.mem.segs = h.v]
@@ -468,6 +481,17 @@ CrashedRecoveries(f, rcs) ==
   ELSE LET R == RunTo(BeginRecover(f), Head(rcs).p, Head(rcs).n) IN
        IF ~R.hit THEN [fs |-> f, hit |-> FALSE] ELSE CrashedRecoveries(R.S.fs, Tail(rcs))
 
+\* Torn write of an append: the process dies inside the write call of the
+\* message set - the log file holds the first k records of the batch and a
+\* partial one, the index nothing of the batch.  (The directory is the one at
+\* append.after_log_write with the tail of the log file cut.)
+TornFS(f, m, op, k) ==
+  LET R == RunTo(Begin(f, m, op), "append.after_log_write", 1)
+      w == SelectSeq(Plan(f, m, op), LAMBDA h : h.i = "wlog")[1]
+      l == R.S.fs.lf[w.k]
+  IN [hit |-> R.hit /\ k >= 0 /\ k < Len(w.recs),
+      fs |-> [R.S.fs EXCEPT !.lf = Put(@, w.k, SubSeq(l, 1, Len(l) - Len(w.recs) + k) \o <<Torn>>)]]
+
 \* crash points an operation passes, in order (with repetitions)
 PointsOf(f, m, op) == LET cps == SelectSeq(Plan(f, m, op), LAMBDA h : h.i = "cp") IN
                       [i \in 1..Len(cps) |-> cps[i].p]
@@ -498,6 +522,14 @@ DoCrash(op, p, n) ==
   /\ obs' = [a |-> "Crash", ret |-> <<>>, err |-> ""]
   /\ UNCHANGED cfg
 
+\* the process is killed inside the log write of an append (torn write)
+DoCrashTorn(op, k) ==
+  /\ mem.up /\ op.a \in {"Append", "AppendSet"}
+  /\ LET R == TornFS(fs, mem, op, k) IN R.hit /\ fs' = R.fs
+  /\ mem' = Down
+  /\ obs' = [a |-> "Crash", ret |-> <<>>, err |-> ""]
+  /\ UNCHANGED cfg
+
 DoRecover ==
   /\ ~mem.up
   /\ LET R == RecoverFS(fs) IN fs' = R.fs /\ mem' = R.mem
@@ -517,10 +549,12 @@ RecoverPointsOf(f) == LET S0 == BeginRecover(f) IN
                       LET cps == SelectSeq(S0.todo, LAMBDA h : h.i = "cp") IN [i \in 1..Len(cps) |-> cps[i].p]
 
 \* crash + reopen in one step (what a recorded crash run shows)
-DoCrashRecover(op, p, n, rcs) ==
+\* torn >= 0: the crash is a torn write that kept torn complete records
+DoCrashRecover(op, p, n, torn, rcs) ==
   /\ mem.up
-  /\ LET R == RunTo(Begin(fs, mem, op), p, n)
-         C == CrashedRecoveries(R.S.fs, rcs)
+  /\ LET R == IF torn >= 0 THEN TornFS(fs, mem, op, torn)
+              ELSE LET Q == RunTo(Begin(fs, mem, op), p, n) IN [hit |-> Q.hit, fs |-> Q.S.fs]
+         C == CrashedRecoveries(R.fs, rcs)
          V == RecoverFS(C.fs) IN
      /\ R.hit /\ C.hit
      /\ fs' = V.fs /\ mem' = V.mem
@@ -541,6 +575,15 @@ C05_NoDup(sc) == Increasing(sc)
 \* active segment whose base lies beyond the last record - nothing is lost,
 \* duplicated or invented by that, so C05 does not forbid it.)
 C05_NewestOK(sc, nw) == sc # <<>> => Last(sc).off <= nw
+
+\* ... and no offset that ever carried a record may be claimed without being
+\* readable: the offsets between the last readable record and NewestOffset()
+\* (empty after a truncation into a gap left by compaction or by an interrupted
+\* retention) must not be offsets of records that existed before the step or
+\* that the step was writing (an index that outlives its log claims them)
+C05_NoGhost(ghostable, sc, nw) ==
+  LET lst == IF sc = <<>> THEN -1 ELSE Last(sc).off IN
+  \A r \in ghostable : ~(lst < r.off /\ r.off <= nw)
 
 \* every record of the scan is what a reader opened at its offset delivers
 C05_ReadAt(sc, rd) ==
@@ -571,6 +614,14 @@ Removable(op, pre, lastBase) ==
     [] OTHER -> {}
 Addable(op, nw) ==
   IF op.a \in {"Append", "AppendSet"} THEN RangeOf(Stamp(op.recs, nw + 1)) ELSE {}
+
+\* the records whose offsets must not be claimed-but-unreadable after the step:
+\* all records present before and the ones being written; a clean may remove
+\* every record in front of the last segment (retention can leave nothing but
+\* a freshly rolled empty segment), a truncation removes a suffix and must
+\* leave the end of the log at or below what it removed
+Ghostable(op, pre, lastBase, nw) ==
+  (RangeOf(pre) \ (IF op.a = "Clean" THEN Removable(op, pre, lastBase) ELSE {})) \cup Addable(op, nw)
 
 \* completed appends survive, unmodified, at their offsets
 C05_Durable(op, pre, lastBase, sc) ==
